@@ -97,6 +97,10 @@ def replay(rec):
         g, cb, fb = kindl.real_solve(sc, q2, srf_bg_conc=c2, **kw)
         g, cc, fc = kindl.real_solve(sc, a * q1 + b * q2, srf_bg_conc=a * c1 + b * c2, **kw)
         worst = max(worst, kindl.rel_err(cc, a * ca + b * cb), kindl.rel_err(fc, a * fa + b * fb))
+        # homogeneity across magnitudes: a threshold / clean-up / clipping on the data is only visible far from order one
+        for s_ in (1e-14, -1e-11, 1e-7, 1e9):
+            g, cs_, fs_ = kindl.real_solve(sc, s_ * q1, srf_bg_conc=s_ * c1, **kw)
+            worst = max(worst, kindl.rel_err(np.asarray(cs_) / s_, ca), kindl.rel_err(np.asarray(fs_) / s_, fa))
         g, c0, f0 = kindl.real_solve(sc, q1, srf_bg_conc=0.0, **kw)
         worst = max(worst, kindl.rel_err(fa, f0), float(np.abs((ca - c0) - c1).max()) / max(abs(c1), np.abs(c0).max(), 1e-300))
     out.update(max_rel_discrepancy=worst, tolerance=tol, confirmed=bool(worst > tol))
@@ -125,7 +129,7 @@ def main(run):
     run.assumptions = [
         "real arithmetic with the production doubles as coefficients; tolerance 1e-9 of the largest coefficient",
         "pyfftw = mathematical DFT; numba preserves Python semantics",
-        "a NonAffine event (product/branch/division on data) is replayed on the real package as additivity+homogeneity of random sign-changing fields",
+        "a NonAffine event (product/branch/division/comparison/absolute value on data) is replayed on the real package as additivity + homogeneity (factors 1e-14 .. 1e9) of random sign-changing, zero-mean and zero fields",
     ]
     kindl.validate_encoding(run)
     scs = kindl.base_scenarios(run.tier, run.seed)
